@@ -15,21 +15,16 @@ def pipeline(pid):
     return reg
 
 
-def printed_cases(result):
-    """JSON cases printed by a spec with PrintT(ToJson(..)); TLC may evaluate an action more than once: dedupe."""
-    seen, out = set(), []
-    for line in result.printed:
-        if not line.startswith('"{'):
-            continue
-        try:
-            inner = json.loads(line)
-        except ValueError:
-            continue
-        if inner in seen:
-            continue
-        seen.add(inner)
-        out.append(inner)
-    return out
+def cat_files(dst, srcs):
+    n = 0
+    with open(dst, "w") as fo:
+        for s in srcs:
+            with open(s) as fi:
+                for line in fi:
+                    if line.strip():
+                        fo.write(line if line.endswith("\n") else line + "\n")
+                        n += 1
+    return n
 
 
 def spec_must_hold(r, what):
@@ -73,16 +68,48 @@ def c07(ctx, replay):
     else:
         mc = ctx.tlc("MC_Compat", "MC_Compat_thorough.cfg" if thorough else "MC_Compat.cfg", timeout=1500)
         spec_must_hold(mc, "MC_Compat")
-        cases = printed_cases(mc)
         fam = ctx.path("families.ndjson")
         g = ctx.tlc("Gen_Compat", "Gen_Compat_thorough.cfg" if thorough else "Gen_Compat.cfg", env={"OUT": fam},
                     workers=4, timeout=600, count=False)
         spec_must_hold(g, "Gen_Compat")
-        with open(fam) as f:
-            cases += [l.strip() for l in f if l.strip()]
-        write_lines(cases_file, cases)
+        ncases = cat_files(cases_file, [mc.cases_file, fam])
         ctx.exhaustive = True
-        ctx.extra["scope"] = {"K": 5 if thorough else 4, "cases": len(cases)}
+        ctx.extra["scope"] = {"K": 5 if thorough else 4, "cases": ncases}
     rep_file = ctx.path("compat_report.json")
     _, rep, _ = ctx.vh(["replay-compat", "-cases", cases_file, "-out", rep_file], expect_report=rep_file)
     ctx.add_report(rep, "compat", traces=rep.get("cases", 0))
+
+
+# ------------------------------------------------------------------------------------------------ C14
+@pipeline("C14")
+def c14(ctx, replay):
+    thorough = ctx.tier == "thorough"
+    ctx.rule = ("behaviours of MC_Depth: a network is built link by link (every link set over the node scope in BFS "
+                "mode, random insertion orders in simulation mode), then queried for its activation depth MaxQ times "
+                "with caps from Caps; each finished behaviour is replayed on a real network (built through the "
+                "network API and expressed from a genome) comparing result, error and leftover traversal marks after "
+                "every query; non-trivial = behaviour in which a query hit its cap")
+    ctx.assumptions = ["non-modular networks (quantifier of C14)", "5 s watchdog per behaviour decides termination"]
+    cases_file = ctx.path("depth_cases.ndjson")
+    if replay is not None:
+        write_lines(cases_file, replay_cases(replay))
+    else:
+        runs = []
+        mc = ctx.tlc("MC_Depth", "MC_Depth_thorough.cfg" if thorough else "MC_Depth.cfg", timeout=2400)
+        spec_must_hold(mc, "MC_Depth")
+        runs.append(mc.cases_file)
+        nh = ctx.tlc("MC_Depth", "MC_Depth_nohidden.cfg", timeout=600)
+        spec_must_hold(nh, "MC_Depth/nohidden")
+        runs.append(nh.cases_file)
+        sim = ctx.tlc("MC_Depth", "Sim_Depth.cfg", simulate="num=%d" % (4000 if thorough else 150), depth=40,
+                      extra=["-seed", str(ctx.seed)], timeout=1200)
+        spec_must_hold(sim, "MC_Depth/simulate")
+        runs.append(sim.cases_file)
+        n = cat_files(cases_file, runs)
+        ctx.exhaustive = True
+        ctx.extra["scope"] = {"behaviours": n, "bfs": "1 sensor, 2 hidden, %d output(s), all link sets%s" % (
+            2 if thorough else 1, " up to 7 links" if thorough else ""),
+            "simulate": "2 sensors, 3 hidden, 2 outputs, <= 14 links, any insertion order, 3 queries"}
+    rep_file = ctx.path("depth_report.json")
+    _, rep, _ = ctx.vh(["replay-depth", "-cases", cases_file, "-out", rep_file], expect_report=rep_file)
+    ctx.add_report(rep, "depth", traces=rep.get("cases", 0))
